@@ -197,3 +197,42 @@ Definition mix_wf_layout (a : arch) (iv : Z -> bool) (module_at : Z -> option Z)
   (a_pw a <? base) && (base + a_pw a * mix_total fs <? 2 ^ a_bits a).
 Definition mix_layout (a : arch) (base ip0 : Z) (gp0 : list Z) (fs : list mspec) : regs * validity * memory :=
   ({| r_ip := ip0; r_sp := base; r_fp := 0; r_lr := 0; r_gp := gp0 |}, VAll, mk_mem a base (mix_words fs)).
+
+(* ---- STACK CFI rules instead of the abstract oracle: the evaluator of the rule family the correspondence run uses,
+     STACK CFI INIT <lo> <size> .cfa: <sp> N + .ra: .cfa <pointer width> - ^
+   against CfiStackWalker (walker.rs eval_cfi_expr: u64 wrapping arithmetic, `^` = a read of one register-sized word,
+   set_cfa / set_ra = Register::try_from), as [cfi_family] of C05/Driver.v does for a module table.  Here the symbol
+   files are abstracted to [rule_at]: lookup address -> N of the STACK CFI record covering it (None: not covered).
+   Validity: forwarded ++ [sp; pc] (the real set; [cfi_family] builds the same set without repeating a name). *)
+Definition fits_w (a : arch) (x : Z) : bool := x <? 2 ^ a_bits a.
+Definition cfi_rules (a : arch) (mem : memory) (rule_at : Z -> option Z) (callee : frame) (_ : option frame) (fwd : list Z)
+  : option (regs * list Z) :=
+  match rule_at (f_instr callee) with
+  | None => None
+  | Some n =>
+      if negb (reg_valid a (a_cfi_sp_name a) (f_valid callee)) then None else
+      let sp := view a (r_sp (f_regs callee)) in
+      let cfa := wrap64 (sp + n) in
+      match read mem (a_pw a) (wrap64 (cfa - a_pw a)) with
+      | None => None
+      | Some ra =>
+          if negb (fits_w a cfa) then None else if negb (fits_w a ra) then None else
+          let r := f_regs callee in
+          Some ({| r_ip := ra; r_sp := cfa; r_fp := r_fp r; r_lr := r_lr r; r_gp := r_gp r |},
+                fwd ++ [a_cfi_sp_name a; a_cfi_ip_name a])
+      end
+  end.
+(* the lookup address of the callee of the frame after [done]: the context's ip, then return address - adj *)
+Fixpoint prev_instr (a : arch) (instr : Z) (done : list mspec) : Z :=
+  match done with [] => instr | x :: d => prev_instr a (ms_ra x - a_adj a) d end.
+Definition opt_eqb (o : option Z) (v : Z) : bool := match o with Some x => x =? v | None => false end.
+(* the rule table describes the layout: a CFI frame's callee is covered by a record whose N is the frame size, a scan
+   frame's callee by none *)
+Fixpoint rules_ok (a : arch) (rule_at : Z -> option Z) (instr : Z) (fs : list mspec) : bool :=
+  match fs with
+  | [] => true
+  | f :: t => (match ms_tech f with
+               | TkCfi => opt_eqb (rule_at instr) (a_pw a * (ms_len f + 1))
+               | TkScan => negb (is_some (rule_at instr))
+               end) && rules_ok a rule_at (ms_ra f - a_adj a) t
+  end.
